@@ -213,3 +213,44 @@ func VfC19_Step() {
 		vfAssert("C19.step.no-err", vfAnd(fw.err == nil, err == nil))
 	}
 }
+
+// hOKWriter never fails and collects what it receives.
+type hOKWriter struct{ got []byte }
+
+func (w *hOKWriter) Write(p []byte) (int, error) {
+	w.got = append(w.got, p...)
+	return len(p), nil
+}
+
+// VfC19_History: the contract holds for every call whatever happened to an
+// earlier call in the same process: a WriteTo against a writer that fails
+// somewhere (symbolic) is followed by a WriteTo of the same or of another
+// module against a healthy writer, which must deliver the whole text, count
+// it, and return no error; String() still works.  sync.Pool, should the
+// library use one, is modelled as handing out any pooled object or none.
+//
+//vf:unwind 400
+//vf:shards 4
+//vf:steps 50000000
+func VfC19_History() {
+	m := hModule(func(k int) bool { return k == 0 || k == 6 || k == 9 })
+	other := NewModule()
+	other.NewGlobalDef(hLetter("og"), constant.NewInt(types.I32, 1))
+	w := &hWriter{}
+	n1, err1 := m.WriteTo(w)
+	vfAssert("C19.history.first-count", n1 == w.total)
+	if w.failed {
+		vfAssert("C19.history.first-error", err1 == error(hErr))
+	}
+	second := m
+	if vfChoice("second", 2) == 1 {
+		second = other
+	}
+	ok := &hOKWriter{}
+	n2, err2 := second.WriteTo(ok)
+	vfReach("C19.history")
+	want := second.String()
+	vfAssert("C19.history.no-error-after-earlier-failure", err2 == nil)
+	vfAssert("C19.history.whole-text-delivered", string(ok.got) == want)
+	vfAssert("C19.history.count-equals-length", n2 == int64(len(want)))
+}
